@@ -13,7 +13,7 @@ import sys, os, re, json, subprocess, time, hashlib, concurrent.futures, shutil
 
 VERIF = os.path.dirname(os.path.abspath(__file__))
 REPO = os.environ.get("VERIF_REPO", "/repo")
-BUILD = os.path.join(VERIF, "build")
+BUILD = os.path.join(VERIF, "build", "p%d" % os.getpid()) if os.environ.get("VERIF_KEEP_BUILD") != "1" else os.path.join(VERIF, "build")
 XT = os.path.join(VERIF, "xt", "target", "release", "xt")
 UNITS = os.path.join(VERIF, "units")
 VERUS = shutil.which("verus") or "/opt/veriftools/verus/verus"
@@ -125,13 +125,18 @@ def parse_unit(path):
 
 # ------------------------------------------------------------------ extraction
 def run_xt(unit, workdir):
-    takes_path = os.path.join(workdir, unit["name"] + ".takes")
+    import threading
+    takes_path = os.path.join(workdir, f"{unit['name']}.{os.getpid()}.{threading.get_ident()}.takes")
     with open(takes_path, "w") as f:
         for t in unit["takes"]:
             f.write(f"{t.key}|{t.file}|{t.selector}|{t.opts}\n")
     if not os.path.exists(XT):
         raise Undecided("xt extractor not built (run MANIFEST setup_cmd)")
     p = subprocess.run([XT, REPO, takes_path], capture_output=True, text=True)
+    try:
+        os.unlink(takes_path)
+    except OSError:
+        pass
     if p.returncode != 0:
         raise Undecided(f"xt failed: {p.stderr.strip()[:400]}")
     bykey = {t.key: t for t in unit["takes"]}
@@ -846,6 +851,8 @@ def main():
             return subprocess.call(js["witness"]["replay_cmd"], shell=True)
         return decide(js["property"], "quick", seed)
     if a[0] == "--unit":
+        global BUILD
+        BUILD = os.path.join(VERIF, "build")
         name = a[1]
         mode = a[a.index("--mode") + 1] if "--mode" in a else "normal"
         p = os.path.join(UNITS, name + ".vrs")
@@ -903,4 +910,7 @@ def main():
 
 
 if __name__ == "__main__":
-    sys.exit(main())
+    rc = main()
+    if os.environ.get("VERIF_KEEP_BUILD") != "1" and "--unit" not in sys.argv:
+        shutil.rmtree(BUILD, ignore_errors=True)
+    sys.exit(rc)
